@@ -120,6 +120,10 @@ def replay(f):
         mode = w["mode"]
         fsc = FailFS()
         proj = rproject.Project(tmp, fscommands=fsc, ropefolder=None, automatic_soa=False)
+        # same history shape as the harness: one redoable change before the call under test
+        proj.do(change.CreateResource(proj.get_file("zz_redo.py")))
+        proj.history.undo()
+        fsc.n = 0
         cs = build(proj, w["ops"])
         th = taskhandle.DEFAULT_TASK_HANDLE
         if mode.endswith("stop"):
@@ -131,6 +135,7 @@ def replay(f):
             call = lambda: proj.history.undo(task_handle=th)  # noqa: E731
         before = snap(tmp)
         undo_before = list(proj.history.undo_list)
+        redo_before = list(proj.history.redo_list)
         fsc.n = 0
         if mode.endswith("fault"):
             fsc.fail_at = w["k"]
@@ -145,8 +150,8 @@ def replay(f):
             after = snap(tmp)
             if after != before:
                 return dict(reproduced=True, signature=signature(w, "not_restored", e), detail="ops=%s %s k=%s raised %s; tree before %s after %s" % (w["ops"], mode, w["k"], type(e).__name__, before, after))
-            if list(proj.history.undo_list) != undo_before:
-                return dict(reproduced=True, signature=signature(w, "history_changed", e), detail="undo list changed")
+            if list(proj.history.undo_list) != undo_before or list(proj.history.redo_list) != redo_before:
+                return dict(reproduced=True, signature=signature(w, "history_changed", e), detail="undo or redo list changed by the failed call")
             if not isinstance(e, (Injected, exceptions.RopeError)):
                 return dict(reproduced=True, signature=signature(w, "error_masked", e), detail="ops=%s %s k=%s reported %s: %s" % (w["ops"], mode, w["k"], type(e).__name__, e))
             return dict(reproduced=False, signature="", detail="restored")
